@@ -152,6 +152,39 @@ Theorem C12_json_quantity_roundtrip :
 Proof. exact quantity_roundtrip. Qed.
 Print Assumptions C12_json_quantity_roundtrip.
 
+(* 6c. Transaction.UnmarshalJSON member by member (tx_of_json, tied to the code by field-patched
+       documents on every run): the VALUE of the "hash" member has no influence on the decoded
+       transaction - its hash is tx_hash of its own content - and whatever is accepted has every
+       required member, decoded by the quantity / bytes codecs, and a valid signature range. *)
+Theorem C12_json_hash_member_ignored :
+  forall (j : tx_json) (h1 h2 : jfield),
+    hash_member_ok h1 = true -> hash_member_ok h2 = true ->
+    tx_of_json (set_hash j h1) = tx_of_json (set_hash j h2).
+Proof. exact json_hash_member_ignored. Qed.
+Print Assumptions C12_json_hash_member_ignored.
+
+Theorem C12_json_accepted_fields :
+  forall (j : tx_json) (t : tx),
+    tx_of_json j = Some t ->
+    req_quantity 16 (j_nonce j) = Some (t_nonce t) /\ req_quantity 64 (j_price j) = Some (t_price t) /\
+    req_quantity 16 (j_gas j) = Some (t_gas t) /\ req_quantity 64 (j_value j) = Some (t_value t) /\
+    req_quantity 64 (j_v j) = Some (t_v t) /\ req_quantity 64 (j_r j) = Some (t_r t) /\
+    req_quantity 64 (j_s j) = Some (t_s t) /\
+    (exists s, j_input j = JS s /\ dec_hexbytes s = Some (t_data t)) /\
+    json_accepts t = true /\ hash_member_ok (j_hash j) = true.
+Proof. exact json_accepted_fields. Qed.
+Print Assumptions C12_json_accepted_fields.
+
+(* 3b. An EIP-155 signer attributes a replay-protected transaction only when the chain id derived
+       from its V is the signer's, and then V = 35 + 2c + recovery id exactly (V arithmetic is over
+       Z with the narrowing recoverPlain performs: no negative or wrapped V' slips through). *)
+Theorem C12_eip155_sender_chain :
+  forall H ecrecover (c : N) (t : tx) (a : bytes),
+    sender_signer H ecrecover (EIP155 c) t = Ok a -> is_protected_v (t_v t) = true ->
+    derive_chain_id (t_v t) = c /\ exists v, v < 2 /\ t_v t = 35 + 2 * c + v.
+Proof. exact eip155_sender_chain. Qed.
+Print Assumptions C12_eip155_sender_chain.
+
 (* 7. Which signer the node applies.  On every probed height of every built-in
       configuration (table regenerated from the source by the translator on each
       run) the model's make_signer is the signer types.MakeSigner returns. *)
